@@ -679,6 +679,11 @@ class Fxp():
             val = val.val * 2**(self.n_frac - val.n_frac)
             raw = True
 
+            # the shifted raw value can be fractional: it must reach the rounding step as it is,
+            # not cast to the (integer) value type of the source
+            if vdtype != complex:
+                vdtype = None
+
         elif isinstance(val, (int, float, complex)):
             vdtype = type(val)
 
